@@ -237,7 +237,7 @@ var specs = map[string]*CheckSpec{
 		ID: "C02", Patterns: []string{cmdPkg}, NeedHelper: true, Instrument: true,
 		Runs: []HarnessRun{concRun("ZZ_C02", "ZZ_C02N", "ZZ_C02Desc", "", 1, 1, false, nil, []int{0, 2}),
 			thoroughOnly(onlyShapes(concRun("ZZ_C02", "ZZ_C02N", "ZZ_C02Desc", "budget 2:", 2, 2, false, nil, []int{}), []int{0}), "-p2")},
-		Bounds:      concBounds("two concurrent sends from one account, the source named literally / by an account variable / through meta(); 5 combinations", false),
+		Bounds:      concBounds("two concurrent sends (a fixed amount or everything: send [ASSET *]) from one account, the source named literally / by an account variable / through meta(); 5 combinations", false),
 		Assumptions: concAssume, Encoded: cmdEncoded,
 		Rule:        "after quiescence the persisted log is replayed in order from the symbolic opening balance: every posting must be covered at its position; every Lock call must carry the resolved source in its write set",
 		MaxPaths:    func(tier string) int { return 2000000 },
@@ -303,7 +303,7 @@ var specs = map[string]*CheckSpec{
 			if tier == "thorough" {
 				p = 2
 			}
-			return map[string]any{"requests": "14 populations of 2-3 requests with read/write sets over accounts {x,y}, optionally one request cancelled by a separate thread at an arbitrary moment", "staged_releases": "6 populations of 3 requests whose holders release one at a time in a given order; at every rest point a pending request must conflict with a current holder", "preemptions": p, "threads": "one per request, one per cancellation, main"}
+			return map[string]any{"requests": "17 populations of 2-3 requests with read/write sets (up to two accounts each) over accounts {x,y,z}, optionally one request cancelled by a separate thread at an arbitrary moment", "staged_releases": "8 populations of 3 requests whose holders release one at a time in a given order; at every rest point a pending request must conflict with a current holder", "preemptions": p, "threads": "one per request, one per cancellation, main"}
 		},
 		Assumptions: concStubs,
 		Encoded:     []string{"command.(*DefaultLocker).Lock", "command.(*lockIntent).tryLock/unlock", "collectionutils.(*LinkedList).Append/RemoveValue/RemoveFirst/FirstNode", "collectionutils.(*LinkedListNode).Remove/Next/Value"},
@@ -366,9 +366,11 @@ var specs = map[string]*CheckSpec{
 					via = "bulkHandler (JSON body, continueOnFailure parameter, status code, JSON answer)"
 				}
 				return fmt.Sprintf("bulk of %d element(s) through %s, arbitrary actions/outcomes/continueOnFailure", i%3+1, via)
-			}, CanaryShapes: []int{0, 1, 3}}},
+			}, CanaryShapes: []int{0, 1, 3}},
+			{Pkg: v2Pkg, Dir: "internal/api/v2", Mod: "ledger", Fn: "ZZ_C18Args", Shapes: rangeShapes(2), Cfg: cmdCfg, Desc: harnessDesc(v2Pkg, "ZZ_C18ArgsDesc", ""), CanaryShapes: []int{0}},
+			{Pkg: v2Pkg, Dir: "internal/api/v2", Mod: "ledger", Fn: "ZZ_C18Two", Shapes: rangeShapes(2), Cfg: cmdCfg, Desc: harnessDesc(v2Pkg, "ZZ_C18TwoDesc", ""), CanaryShapes: []int{0}}},
 		Bounds: func(tier string) map[string]any {
-			return map[string]any{"elements": "1..3 through ProcessBulk; 1..2 (thorough 3) through bulkHandler with the continueOnFailure parameter spelled true/1/TRUE or absent/false/0", "actions": "the four known actions and an unknown one, chosen per element", "outcomes": "success or failure per element (symbolic Bool), three error classes", "continueOnFailure": "symbolic Bool", "payloads": "concrete well-formed JSON per action (decoded by the JSON model); malformed payloads are outside this check"}
+			return map[string]any{"elements": "1..3 through ProcessBulk; 1..2 (thorough 3) through bulkHandler with the continueOnFailure parameter spelled true/1/TRUE or absent/false/0", "actions": "the four known actions and an unknown one, chosen per element", "outcomes": "success or failure per element (symbolic Bool), three error classes", "continueOnFailure": "symbolic Bool", "element_arguments": "bulks of 2..3 ADD_METADATA / DELETE_METADATA elements (accounts and transactions with arbitrary ids; metadata and key present or absent per element): each reaches the engine with its own arguments", "two_requests": "two bulks of 1..2 elements one after the other through bulkHandler, the second omitting idempotency keys the first supplied", "payloads": "concrete well-formed JSON per action (decoded by the JSON model); malformed payloads are outside this check"}
 		},
 		Assumptions: []string{"backend.Ledger is a recording stub whose four write methods succeed or fail as the symbolic inputs say", "encoding/json modelled over ropes", "the HTTP request is built by the harness (body = JSON model of the Bulk value, recording ResponseWriter); chi routing is not executed"},
 		Encoded:     []string{"v2.bulkHandler", "v2.ProcessBulk", "libs/api.QueryParamBool", "ledger.(*TransactionRequest).ToRunScript", "ledger.TxToScriptData", "command.IsSaveMetaError/IsDeleteMetaError", "engine.IsCommandError", "machine.IsInsufficientFundError"},
@@ -393,11 +395,12 @@ var specs = map[string]*CheckSpec{
 		Instrument: true,
 		Runs: []HarnessRun{commandRun("ZZ_C10", countShapes(cmdPkg, "ZZ_C10N"), harnessDesc(cmdPkg, "ZZ_C10Desc", "revert scenario:"), []int{0, 5}),
 			commandRun("ZZ_C10Reverse", rangeShapes(8), func(s *Session, i int) string { return fmt.Sprintf("TransactionData.Reverse on %d postings", i) }, []int{4}),
+			{Pkg: v2Pkg, Dir: "internal/api/v2", Mod: "ledger", Fn: "ZZ_C10Bulk", Shapes: rangeShapes(2), Cfg: cmdCfg, Desc: harnessDesc(v2Pkg, "ZZ_C10BulkDesc", ""), CanaryShapes: []int{0}},
 			{Pkg: v2Pkg, Dir: "internal/api/v2", Mod: "ledger", Fn: "ZZ_C10Http", Shapes: rangeShapes(5), Cfg: cmdCfg, Desc: harnessDesc(v2Pkg, "ZZ_C10HttpDesc", "v2"), CanaryShapes: []int{0, 4}},
 			{Pkg: v1Pkg, Dir: "internal/api/v1", Mod: "ledger", Fn: "ZZ_C10Http", Shapes: rangeShapes(5), Cfg: cmdCfg, Desc: harnessDesc(v1Pkg, "ZZ_C10HttpDesc", "v1"), CanaryShapes: []int{0, 4}},
 			concRun("ZZ_C10Race", "ZZ_C10RaceN", "ZZ_C10RaceDesc", "", 1, 2, false, nil, []int{0})},
 		Bounds: func(tier string) map[string]any {
-			return map[string]any{"reverse": "TransactionData.Reverse on 0..7 postings, arbitrary amounts", "http": "v1/v2 revertTransaction with an arbitrary id in the URL and the force (v1: disableChecks) parameter absent or an arbitrary alphanumeric string of 1..4 bytes, against a recording backend", "original_transactions": "11 posting patterns (1-5 postings) x forced/unforced x with/without an intermediate spend of the delivered funds", "amounts_and_balances": "unbounded non-negative integers", "racing_reverts": "2-3 concurrent reverts of one transaction, forced and unforced, pre-emption budget 1 (thorough 2), blocking switches deterministic"}
+			return map[string]any{"reverse": "TransactionData.Reverse on 0..7 postings, arbitrary amounts", "bulk": "bulks of 2..3 REVERT_TRANSACTION elements through v2.ProcessBulk, ids arbitrary, force absent/true/false per element", "http": "v1/v2 revertTransaction with an arbitrary id in the URL and the force (v1: disableChecks) parameter absent or an arbitrary alphanumeric string of 1..4 bytes, against a recording backend", "original_transactions": "11 posting patterns (1-5 postings) x forced/unforced x with/without an intermediate spend of the delivered funds", "amounts_and_balances": "unbounded non-negative integers", "racing_reverts": "2-3 concurrent reverts of one transaction, forced and unforced, pre-emption budget 1 (thorough 2), blocking switches deterministic"}
 		},
 		Assumptions: cmdStubs, Encoded: append([]string{"ledger.(*TransactionData).Reverse", "ledger.Postings.Reverse", "ledger.MarkReverts", "v1.revertTransaction", "v2.revertTransaction", "libs/api.QueryParamBool"}, cmdEncoded...),
 		Rule: "create the original, optionally move the funds on, revert (forced or not), revert again; postings, reverted flag, balances and log count compared symbolically",
